@@ -72,6 +72,19 @@ theorem lalr_accepted_terminal_is_legal {G : EarleyProto.Grammar} {T : LRProto.T
     ∃ w, EarleyProto.DerivesSeq G [EarleyProto.Sym.nt start] (consumed ++ t :: w) :=
   LRProto.fed_token_is_legal hT h (EarleyProto.productiveB_sound hP) h0 hstart hne hTA hinv hfeed
 
+/-- **LALR: every terminal in `accepts` can legally come next** — for the model of `InteractiveParser.accepts()` itself (trial feeding of the
+    terminals in `choices()`): a terminal other than `$END` begins a continuation of the consumed input to a sentence, and `$END` is returned only
+    if the consumed input is a sentence. -/
+theorem lalr_accepts_are_legal {G : EarleyProto.Grammar} {T : LRProto.Table} {A : LR0.Auto} {s0 start : Nat}
+    (hT : LRProto.TableSafe G T s0) (h : LR0.checkLR0 G A = true) (order : List EarleyProto.Rule) (hP : EarleyProto.productiveB G order = true)
+    (h0 : T.start < A.items.length) (hstart : ∀ x ∈ A.kernelOf T.start, x.2 = 0 ∧ x.1.lhs = start ∧ x.1 ∈ G.rules)
+    (hne : ∀ q, q < A.items.length → A.kernelOf q ≠ []) (hTA : LRProto.TableOf T A)
+    {cfg : LRProto.Config} {consumed : List Nat} (hinv : LRProto.Inv G T cfg consumed) (terms : List Nat) (eof fuel t : Nat)
+    (ht : t ∈ LRProto.acceptsOf T terms eof fuel cfg) :
+    (t ≠ eof → ∃ w, EarleyProto.DerivesSeq G [EarleyProto.Sym.nt start] (consumed ++ t :: w)) ∧
+    (t = eof → EarleyProto.DerivesSeq G [EarleyProto.Sym.nt s0] consumed) :=
+  LRProto.accepts_are_legal hT h (EarleyProto.productiveB_sound hP) h0 hstart hne hTA hinv terms eof fuel t ht
+
 /-- **LALR driver: correct-prefix property.** Whatever the driver has consumed without raising is a prefix of a sentence — so `UnexpectedToken`
     is raised no later than at the first token after which no sentence is possible (with `lalr_viable_prefix_shifts`: exactly there). -/
 theorem lalr_consumed_is_viable_prefix {G : EarleyProto.Grammar} {T : LRProto.Table} {A : LR0.Auto} {start : Nat}
